@@ -217,7 +217,10 @@ contract(C + "print_decay_modes",
          ensures=["result is None", "has_table(self, mother)",
                   # accepted options: no scale, or a scale in ]0, 1] without normalisation
                   "scale is None or (not normalize and 0.0 < as_ty(scale, 'float') <= 1.0)"],
-         opts={"entry_defined": True}, defs=["has_table_def(self)"],
+         opts={"entry_defined": True,
+               # ... and it is not a way round the option checks: only with accepted options, on a table that exists
+               "raises_only_if": {"ZeroDivisionError": "(scale is None or (not normalize and 0.0 < as_ty(scale, 'float') <= 1.0)) and self._parsed_dec_file is not None and has_table(self, mother)"}},
+         defs=["has_table_def(self)"],
          # (DecFileNotParsed and DecayNotFound are RuntimeErrors: the first clause covers the three together)
          raises={"RuntimeError": "(scale is not None and (normalize or not (0.0 < as_ty(scale, 'float') <= 1.0))) or self._parsed_dec_file is None or not has_table(self, mother)",
                  # the common factor is a quotient: it does not exist when the values it is made from are all zero
